@@ -48,6 +48,8 @@ func govcUniverse() []*mocrelay.Event {
 		govcEv(12, govcBob, 5, 3, mocrelay.Tag{"e", id(1)}, mocrelay.Tag{"e", id(3)}),
 		govcEv(13, govcAlice, 5, 3, mocrelay.Tag{"a", "30000:" + govcAlice + ":k", "wss://relay.example"}),
 		govcEv(14, govcAlice, 5, 1, mocrelay.Tag{"a", "30000:" + govcAlice + ":k"}),
+		// several values of one tag name on one event (a tag condition listing both must still count it once)
+		govcEv(15, govcBob, 1, 3, mocrelay.Tag{"t", "x"}, mocrelay.Tag{"t", "y"}, mocrelay.Tag{"t", "x"}),
 	}
 }
 
@@ -70,6 +72,8 @@ func govcFilterLists() [][]*mocrelay.ReqFilter {
 		{Limit: i64(1)},
 		{Authors: []string{govcAlice}, Limit: i64(2)},
 		{Kinds: []int64{1}, Since: i64(2), Limit: i64(1)},
+		{Tags: map[string][]string{"t": {"x", "y"}}, Limit: i64(2)},
+		{Tags: map[string][]string{"t": {"x", "y"}}, Limit: i64(1)},
 	}
 	var lists [][]*mocrelay.ReqFilter
 	for _, f := range single {
